@@ -40,6 +40,48 @@ def literal_keys_read(f, dictname="results"):
     return out
 
 
+def _tainted_names(fnode, seeds):
+    """local names whose value may derive from the seed names (fixpoint over assignments, for-targets, with-targets,
+    augmented assignments, stores into a local container `x[k] = v`, `x.append(v)` / update / extend / add)"""
+    tainted = set(seeds)
+
+    def names(e):
+        return {x.id for x in ast.walk(e) if isinstance(x, ast.Name)}
+
+    def base(t):
+        while isinstance(t, (ast.Subscript, ast.Attribute, ast.Starred)):
+            t = t.value
+        return t.id if isinstance(t, ast.Name) else None
+
+    changed = True
+    while changed:
+        changed = False
+        for n in ast.walk(fnode):
+            tgts, val = [], None
+            if isinstance(n, ast.Assign):
+                tgts, val = n.targets, n.value
+            elif isinstance(n, (ast.AugAssign, ast.AnnAssign)) and n.value is not None:
+                tgts, val = [n.target], n.value
+            elif isinstance(n, (ast.For, ast.comprehension)):
+                tgts, val = [n.target], n.iter
+            elif isinstance(n, ast.withitem) and n.optional_vars is not None:
+                tgts, val = [n.optional_vars], n.context_expr
+            elif isinstance(n, ast.Call) and isinstance(n.func, ast.Attribute) and n.func.attr in ("append", "update", "extend", "add", "setdefault", "insert") and isinstance(n.func.value, ast.Name):
+                if any(tainted & names(a) for a in list(n.args) + [k.value for k in n.keywords]) and n.func.value.id not in tainted:
+                    tainted.add(n.func.value.id)
+                    changed = True
+                continue
+            if val is None or not (tainted & names(val)):
+                continue
+            for t in tgts:
+                for el in (t.elts if isinstance(t, (ast.Tuple, ast.List)) else [t]):
+                    b = base(el)
+                    if b and b != "self" and b not in tainted:
+                        tainted.add(b)
+                        changed = True
+    return tainted
+
+
 def run(ctx):
     ctx.attempt(save_restore_round_trip_rule, ctx)
     from . import c17 as _c17
@@ -110,7 +152,11 @@ def run(ctx):
             if a not in restored:
                 r1.fail(con, "committed-not-restored", fs.file, n.lineno, f"{ci.name}.Save_Iter", f"commits self.{a} but Set_Iter never restores it: restoring an iteration leaves the internal variable of a later step in place")
                 continue
-            from_dict = any("results" in {x.id for x in ast.walk(m.value) if isinstance(x, ast.Name)} for m in restored[a] if isinstance(m, ast.Assign))
+            # the restored value must DEPEND on the stored dict: names that (transitively, through local assignments, loop
+            # targets and stores into local containers) carry data read from `results` - a flow-insensitive taint; the direct
+            # textual form fired on a loop that fills two local dicts first (refactored/C15-R5)
+            tainted = _tainted_names(fr.node, {"results"})
+            from_dict = any(tainted & {x.id for x in ast.walk(m.value) if isinstance(x, ast.Name)} for m in restored[a] if isinstance(m, ast.Assign))
             if from_dict:
                 r1.ok(f"{ci.name}: self.{a} committed in Save_Iter, restored from the stored dict")
             else:
@@ -132,11 +178,20 @@ def run(ctx):
             r2.ok(f"{f.name}: no store")
     # returns a copy in the in-memory branch
     r2.instance(fn=fg.qualname)
-    rets = [n for n in ast.walk(fg.node) if isinstance(n, ast.Return) and n.value is not None]
-    if rets and all(".copy()" in norm_text(x.value) or "__Restore_iter_from_local" in norm_text(x.value) for x in rets):
-        r2.ok("Get_results returns entry.copy() (memory) or a freshly rebuilt dict (disk)")
-    else:
+    from ..xeval import Interp as _I2, XObj as _X2, XRaise as _XR2
+
+    entry = {"indexMesh": 0, "Niter": 0, "displacement": "u0"}
+    o2 = _X2(simu, {simu.mangle("__list_results"): [entry], "Niter": 1, simu.mangle("__Niter"): 1})
+    try:
+        got = _I2(repo, extra_builtins={"MPI_SIZE": 1}).call_function(fg, [0], self_obj=o2)
+    except _XR2 as e:
+        got = e
+    if isinstance(got, dict) and got is not entry and got == {"indexMesh": 0, "Niter": 0, "displacement": "u0"} and entry == {"indexMesh": 0, "Niter": 0, "displacement": "u0"}:
+        r2.ok("Get_results returns a copy of the in-memory entry")
+    elif got is entry:
         r2.fail(fg.qualname, "return-copy", fg.file, fg.lineno, "Get_results", "a stored dict is handed out without a copy")
+    else:
+        r2.fail(fg.qualname, "return-value", fg.file, fg.lineno, "Get_results", f"Get_results(0) of a history holding one entry returns {got!r}")
 
     # R15.3 aliasing
     r3 = ctx.rule("R15.3", "no aliasing between history and live state: values stored in an iteration dict are fresh; live solution arrays are never written in place", min_instances=10)
@@ -144,13 +199,24 @@ def run(ctx):
     for nm in ("_Get_u_n", "_Get_v_n", "_Get_a_n"):
         g = simu.methods[nm]
         r3.instance(fn=g.qualname)
-        firsts = [n for n in ast.walk(g.node) if isinstance(n, ast.Assign) and ".copy()" in norm_text(n.value)]
-        rets = [n for n in ast.walk(g.node) if isinstance(n, ast.Return)]
-        if firsts and all(isinstance(x.value, (ast.Name, ast.Call)) for x in rets):
+        # interpreted (the textual form - an assignment containing ".copy()" - fired on a helper extraction, refactored/C15-R3):
+        # the getter is called on a simulation holding a vector; what it returns must not be the stored object
+        from ..xeval import Interp as _I, XObj as _X, XRaise as _XR
+        from ..xarray import XArray as _A
+
+        stored = _A((4,), [1, 2, 3, 4])
+        o = _X(simu, {simu.mangle("__dict_" + nm[5] + "_n"): {"pt": stored}, simu.mangle("__Get_Ndof"): (lambda pt=None: 4)})
+        try:
+            got = _I(repo, extra_builtins={"MPI_SIZE": 1}).call_function(g, ["pt"], self_obj=o)
+        except _XR as e:
+            got = e
+        if isinstance(got, _A) and got is not stored and list(got.data) == [1, 2, 3, 4]:
             r3.ok(f"{nm} returns a copy of the stored vector")
             copying_getters.add(nm)
-        else:
+        elif got is stored:
             r3.fail(g.qualname, "getter-copy", g.file, g.lineno, nm, "the solution getter hands out the live array (no .copy())")
+        else:
+            r3.fail(g.qualname, "getter-value", g.file, g.lineno, nm, f"the solution getter returns {got!r} for the stored vector [1, 2, 3, 4]")
     for ci in subs:
         fs = ci.methods["Save_Iter"]
         for key, n in literal_keys_stored(fs).items():
@@ -186,6 +252,11 @@ def run(ctx):
                 fresh, why = True, "explicit copy / literal"
             elif isinstance(v, ast.Call):
                 fresh, why = True, "result of a call"
+            elif isinstance(v, ast.Name):
+                # a local built in this function (dict / list literal, comprehension, call): a fresh container
+                defs = [m.value for m in ast.walk(fs.node) if isinstance(m, (ast.Assign, ast.AnnAssign)) and m.value is not None and any(isinstance(t, ast.Name) and t.id == v.id for t in (m.targets if isinstance(m, ast.Assign) else [m.target]))]
+                if defs and all(isinstance(d, (ast.Dict, ast.List, ast.DictComp, ast.ListComp, ast.Call, ast.Constant)) for d in defs) and v.id not in {a.arg for a in fs.node.args.args}:
+                    fresh, why = True, "local container built in Save_Iter"
             if fresh:
                 r3.ok(f"{ci.name}.Save_Iter iter['{key}']: {why}")
             else:
@@ -239,17 +310,8 @@ def run(ctx):
         r4.fail(f.qualname, "reads-folder", f.file, f.lineno, f.name, "a stored iteration is resolved against the current self.folder: changing the folder after saving breaks older entries")
     else:
         r4.ok("Get_results and its callees never read self.folder")
-    # the entry appended at write time is the full path
-    r4.instance(fn=fsb.qualname)
-    from ..flow import Locals
-
-    Lsb = Locals(fsb.node)
-    appends = [n for n in ast.walk(fsb.node) if isinstance(n, ast.Call) and isinstance(n.func, ast.Attribute) and n.func.attr == "append" and "__list_results" in norm_text(n.func.value)]
-    atxt = [Lsb.text(a.args[0]) for a in appends]
-    if len(appends) == 2 and sum("Folder.Join(self.folder" in t for t in atxt) == 1 and sum(isinstance(a.args[0], ast.Name) and a.args[0].id in Lsb.params for a in appends) == 1:
-        r4.ok("Save_Iter appends either the dict or the full path computed at write time")
-    else:
-        r4.fail(fsb.qualname, "append", fsb.file, fsb.lineno, "_Simu.Save_Iter", f"unexpected history append(s): {[norm_text(a) for a in appends]}")
+    # (the shape of the two history appends used to be matched textually; it fired on a merged single append,
+    #  refactored/C15-R1.  What is appended and how it is read back is decided by the interpreted R15.13 / R15.E1.)
 
     ctx.attempt(mesh_roundtrip_rule, ctx)
     ctx.attempt(history_paths_rule, ctx)
